@@ -6,18 +6,21 @@ import AttrsModel.Proofs.C10Obs
 namespace Attrs.C10
 
 theorem known_nil {c : Case} (h : known c = []) (hl : isLegacy c.op = false) :
-    k1 (summarize c.chain) = false ∧ k2 (summarize c.chain) = false ∧
-    k5 (summarize c.chain) c = false ∧ optOutLoses (summarize c.chain) = false ∧
-    dfltFails (summarize c.chain) c = false := by
+    k1 (summarize (fullChain c)) = false ∧ k2 (summarize (fullChain c)) = false ∧
+    k5 (summarize (fullChain c)) c = false ∧ optOutLoses (summarize (fullChain c)) = false ∧
+    dfltFails (summarize (fullChain c)) c = false ∧
+    k10d (summarize (fullChain c)) c = false ∧ k10e (summarize (fullChain c)) c = false := by
   unfold known at h
   simp only [hl, Bool.false_eq_true, if_false] at h
-  generalize k1 (summarize c.chain) = a1 at *
-  generalize k2 (summarize c.chain) = a2 at *
-  generalize k5 (summarize c.chain) c = a5 at *
-  generalize optOutLoses (summarize c.chain) = a4 at *
-  generalize dfltFails (summarize c.chain) c = d at *
+  generalize k1 (summarize (fullChain c)) = a1 at *
+  generalize k2 (summarize (fullChain c)) = a2 at *
+  generalize k5 (summarize (fullChain c)) c = a5 at *
+  generalize optOutLoses (summarize (fullChain c)) = a4 at *
+  generalize dfltFails (summarize (fullChain c)) c = d at *
   generalize optedOut c = o at *
-  cases a1 <;> cases a2 <;> cases a4 <;> cases a5 <;> cases d <;> cases o <;> simp at h ⊢
+  generalize k10d (summarize (fullChain c)) c = ad at *
+  generalize k10e (summarize (fullChain c)) c = ae at *
+  cases a1 <;> cases a2 <;> cases a4 <;> cases a5 <;> cases d <;> cases o <;> cases ad <;> cases ae <;> simp at h ⊢
 
 /-- after the repair an attrs class resolves a pair generated for a base only by opting out itself, so outside
     the opt-out finding the resolved pair covers every field and the hash cache -/
@@ -37,35 +40,36 @@ theorem inh_false {s : Summary} (I : Inv s) (hla : s.lastAttrs = true) (h : optO
 
 /-- everything the theorems need about one non-legacy case -/
 structure Run (c : Case) (x f y : Inst) : Prop where
-  model : model c = observeCopy (summarize c.chain) c x f y
-  trip : roundtrip (summarize c.chain) c.op x = .ok y
-  ok : TripOK (summarize c.chain) c.op x y
-  hx : ∀ n ∈ (summarize c.chain).names, read (summarize c.chain).layout x n = some (.tok (cur c n))
-  hf : ∀ n ∈ (summarize c.chain).names, read (summarize c.chain).layout f n = some (.tok (cur c n))
+  model : model c = observeCopy (summarize (fullChain c)) c x f y
+  trip : roundtrip (summarize (fullChain c)) c.op x = .ok y
+  ok : TripOK (summarize (fullChain c)) c.op x y
+  hx : ∀ n ∈ (summarize (fullChain c)).names, read (summarize (fullChain c)).layout x n = some (.tok (cur c n))
+  hf : ∀ n ∈ (summarize (fullChain c)).names, read (summarize (fullChain c)).layout f n = some (.tok (cur c n))
 
-theorem run_of_wf {c : Case} (hwf : wf c = true) (hk : known c = []) (hl : isLegacy c.op = false) :
-    ∃ i0 x f y, Wf (summarize c.chain) c i0 ∧ Run c x f y ∧
-      read (summarize c.chain).layout x CACHE = read (summarize c.chain).layout
-        (if c.hashedBefore then (doHash (summarize c.chain) i0).inst else i0) CACHE ∧
-      read (summarize c.chain).layout f CACHE = read (summarize c.chain).layout i0 CACHE := by
+theorem run_of_wf {c : Case} (hwf : wf c = true) (hk : known c = []) (hl : isLegacy c.op = false)
+    (hne : c.exc = false) :
+    ∃ i0 x f y, Wf (summarize (fullChain c)) c i0 ∧ Run c x f y ∧
+      read (summarize (fullChain c)).layout x CACHE = read (summarize (fullChain c)).layout
+        (if c.hashedBefore then (doHash (summarize (fullChain c)) i0).inst else i0) CACHE ∧
+      read (summarize (fullChain c)).layout f CACHE = read (summarize (fullChain c)).layout i0 CACHE := by
   obtain ⟨i0, W⟩ := wf_unpack hwf
-  have I := inv_summarize c.chain
-  obtain ⟨_, _, _, hoo, hdf⟩ := known_nil hk hl
+  have I := inv_summarize (fullChain c)
+  obtain ⟨_, _, _, hoo, hdf, _, _⟩ := known_nil hk hl
   have hk4 := (inh_false I W.lastAttrs hoo).1
   obtain ⟨x, hxe, hx, hcx⟩ := history_spec I W c.hashedBefore
   obtain ⟨f, hfe, hf, hcf⟩ := history_spec I W false
-  have hd : (summarize c.chain).gs = .dflt →
-      (isLow c.op && refuses01 (summarize c.chain)) = false ∧
-      ((summarize c.chain).frozen && anySlotSet (summarize c.chain).layout x) = false := by
+  have hd : (summarize (fullChain c)).gs = .dflt →
+      (isLow c.op && refuses01 (summarize (fullChain c))) = false ∧
+      ((summarize (fullChain c)).frozen && anySlotSet (summarize (fullChain c)).layout x) = false := by
     intro hg
     unfold dfltFails at hdf
-    rw [hg, hxe] at hdf
-    simp only [beq_self_eq_true, Bool.true_and, Bool.or_eq_false_iff] at hdf
+    rw [hg, hxe, hne] at hdf
+    simp only [beq_self_eq_true, Bool.true_and, Bool.or_eq_false_iff, Bool.not_false] at hdf
     exact hdf
   obtain ⟨y, hy, T⟩ := roundtrip_ok I W.ok hx hk4 hd
   refine ⟨i0, x, f, y, W, ⟨?_, hy, T, hx, hf⟩, hcx, by simpa using hcf⟩
   unfold model
-  simp only [hxe, hfe]
+  simp only [hxe, hfe, hne, Bool.false_eq_true, if_false]
   cases hop : c.op with
   | legacy len => rw [hop] at hl; simp [isLegacy] at hl
   | copy => simp only; rw [hop] at hy; rw [hy]
@@ -75,9 +79,9 @@ theorem run_of_wf {c : Case} (hwf : wf c = true) (hk : known c = []) (hl : isLeg
 /-- the specification of a non-legacy operation, as one conjunction -/
 def specRT (c : Case) (o : Obs) : Bool :=
   o.exc == Option.none && o.distinct && o.sameClass &&
-  o.fields == (summarize c.chain).names.map (fun n => (n, some (cur c n))) &&
-  ((summarize c.chain).eq.isNone || o.eqOrig == .T) &&
-  (!hashGenerated (summarize c.chain) ||
+  o.fields == (summarize (fullChain c)).names.map (fun n => (n, some (cur c n))) &&
+  ((summarize (fullChain c)).eq.isNone || o.eqOrig == .T) &&
+  (!hashGenerated (summarize (fullChain c)) ||
     (o.hashCopy == .ok && o.hashEqFresh && ((c.hashedBefore && c.mutate.isSome) || o.hashEqOrig))) &&
   (c.op == .copy || o.cacheAfter != .carried)
 
